@@ -55,3 +55,76 @@ pub fn threads() -> usize {
     let have = std::thread::available_parallelism().map(|x| x.get()).unwrap_or(8);
     want.min(have).min(16)
 }
+
+/// Gate for exact attribution of panics raised on Lance's worker threads: normal cases hold the gate
+/// shared; a case that failed without a precise location re-runs alone holding it exclusively.
+pub static IO_GATE: std::sync::RwLock<()> = std::sync::RwLock::new(());
+
+/// Runs a fallible, panicking-prone IO closure (Lance decode / encode work happens on worker threads whose
+/// panics reach the caller only as a RecvError / JoinError). On failure without a precise /repo location the
+/// closure is re-run alone (exclusive gate) so that the first panic under /repo is this closure's.
+/// Err text: "<error>; PANIC at <file:line>: <message>" or "PANIC at …"; a failure that does not reproduce alone
+/// is marked "(not reproduced when re-run alone)".
+pub fn run_attributed<T>(mut f: impl FnMut() -> Result<T, String>) -> Result<T, String> {
+    fn once<T>(f: &mut impl FnMut() -> Result<T, String>) -> Result<T, String> {
+        match catch(|| f()) {
+            Ok(Ok(x)) => {
+                Ok(x)
+            }
+            Ok(Err(e)) => match take_repo_panic() {
+                Some((m, l)) => Err(format!("{e}; PANIC at {l}: {m}")),
+                None => Err(e),
+            },
+            Err((m, l)) => {
+                let (m, l) = take_repo_panic().unwrap_or((m, l));
+                Err(format!("PANIC at {l}: {m}"))
+            }
+        }
+    }
+    let first = {
+        let _g = IO_GATE.read().unwrap_or_else(|e| e.into_inner());
+        once(&mut f)
+    };
+    match first {
+        Err(e) if !e.contains("PANIC at ") || e.contains("tokio.rs:124") => {
+            let _g = IO_GATE.write().unwrap_or_else(|e| e.into_inner());
+            let _ = take_repo_panic();
+            match once(&mut f) {
+                Err(e2) => Err(e2),
+                Ok(_) => Err(format!("{e} (not reproduced when re-run alone)")),
+            }
+        }
+        other => other,
+    }
+}
+
+/// "<file>.rs:<line>" of the first location under /repo mentioned in an error text
+pub fn repo_location(t: &str) -> Option<String> {
+    let p = t.find("/repo/")?;
+    let rest = &t[p..];
+    let end = rest.find(|c: char| c.is_whitespace() || c == ',' || c == ';').unwrap_or(rest.len());
+    let mut it = rest[..end].rsplit('/').next()?.split(':');
+    Some(format!("{}:{}", it.next()?, it.next()?))
+}
+
+/// narrow class of an IO failure text, stable across line-number shifts:
+/// panic-<file>-<slug of the panic message> | err-<file> | other
+pub fn failure_class(e: &str) -> String {
+    let file_of = |t: &str| repo_location(t).map(|l| l.split(':').next().unwrap_or("").to_string()).unwrap_or_default();
+    if let Some(p) = e.find("PANIC at ") {
+        let rest = &e[p..];
+        let msg = rest.splitn(2, ": ").nth(1).unwrap_or("");
+        let mut slug = String::new();
+        for w in msg.split(|c: char| !c.is_ascii_alphanumeric()).filter(|w| !w.is_empty()).take(9) {
+            if !slug.is_empty() {
+                slug.push('-');
+            }
+            slug.push_str(&w.to_lowercase());
+        }
+        format!("panic-{}-{}", file_of(rest), slug)
+    } else if repo_location(e).is_some() {
+        format!("err-{}", file_of(e))
+    } else {
+        "other".to_string()
+    }
+}
